@@ -148,6 +148,19 @@ func (e *Env) buildConcPlan(id int) *c12proc {
 			p.conc.Pre = append(p.conc.Pre, op)
 		}
 	}
+	if id%4 == 0 {
+		// every worker also encodes its own window of ONE buffer shared by all of them
+		off := 0
+		for w := range p.conc.Workers {
+			for k := 0; k < 3; k++ {
+				size := ref.EntSizes[r.Intn(5)]
+				op := plan.Op{I: len(p.conc.Workers[w]), Fn: "enc", L: int64(r.Intn(ref.NLang)), E: hx(r.Bytes(size)), SlabOff: off + 1}
+				off += size
+				p.conc.Workers[w] = append(p.conc.Workers[w], op)
+			}
+		}
+		p.conc.Slab = off
+	}
 	if useShared {
 		sharedData = r.Bytes(3*sharedNeed + 64) // more than needed: a consumer may request more than it uses
 		p.shared = sharedData
@@ -581,4 +594,99 @@ func checkC12(e *Env) {
 		"the schedules are those the OS produces on this machine; timestamps are evidence of overlap, never a verdict",
 		"reference model as in C01/C03/C04",
 	})
+}
+
+// concurrentSmoke is the concurrent flavour of a per-function monitor: a few cold-start
+// processes in which 8-16 goroutines repeat a small pool of calls; every distinct
+// observation is judged by the reference model. (C12 is the full treatment; this only makes
+// sure that a defect which needs concurrency to show is also seen by the check of the
+// property it breaks.)
+func (e *Env) concurrentSmoke(drv, label string, pool []plan.Op, procs, loops int) (calls int) {
+	var mu sync.Mutex
+	parallel(procs, max(1, e.Workers/4), func(pi int) {
+		r := rng.New(e.Seed, label+"-conc-"+itoa(pi))
+		c := &plan.Conc{GoMaxProcs: []int{16, 4, 2, 8}[pi%4], Loops: loops}
+		G := []int{8, 16, 12}[pi%3]
+		for w := 0; w < G; w++ {
+			var ops []plan.Op
+			for k := 0; k < 8; k++ {
+				op := pool[(w+k*3+r.Intn(2))%len(pool)]
+				op.I = k
+				ops = append(ops, op)
+			}
+			c.Workers = append(c.Workers, ops)
+		}
+		cr := e.RunConc(drv, c, label+"-smoke-"+itoa(pi), nil, 10*time.Minute)
+		viol := func(what string, detail any) {
+			e.Violate(&Violation{What: fmt.Sprintf("%d goroutines calling concurrently from a cold start (GOMAXPROCS %d): %s", G, c.GoMaxProcs, what), Conc: c, Detail: detail})
+		}
+		if cr.Trailer == nil {
+			viol("the process produced no complete result set: "+oneLine(cr.Stderr+" "+cr.ExitErr, 400), cr.Stderr)
+			return
+		}
+		for i := range cr.Results {
+			res := &cr.Results[i]
+			op := &c.Workers[res.G][res.I]
+			n := 1
+			if res.Agg > 0 {
+				n = res.Agg
+			}
+			if res.Panic != "" {
+				viol(fmt.Sprintf("%s panicked: %s", fnName(op.Fn), oneLine(res.Panic, 300)), res)
+				return
+			}
+			if why := e.judgeAgainstRef(op, res, e.refEval(op)); why != "" {
+				viol(fmt.Sprintf("%s(lang %d) returned in %d of its calls something it does not return when run alone: %s", fnName(op.Fn), op.L, n, why), map[string]any{"op": op, "observed": res})
+				return
+			}
+			mu.Lock()
+			calls += n
+			mu.Unlock()
+		}
+	})
+	return calls
+}
+
+// smokePool builds the small pool of calls concurrentSmoke repeats; kind selects the
+// function the calling monitor is about (the others are mixed in as bystanders).
+func (e *Env) smokePool(label, kind string) []plan.Op {
+	r := rng.New(e.Seed, label+"-smokepool")
+	m := e.Model
+	var enc, chk, seed, str []plan.Op
+	for k := 0; k < 10; k++ {
+		l := (k * 3) % ref.NLang
+		ent := r.Bytes(ref.EntSizes[k%5])
+		if k%3 == 0 {
+			ent[0], ent[1] = 0, 0
+		}
+		enc = append(enc, plan.Op{Fn: "enc", L: int64(l), E: hx(ent), Arena: k%2 == 0})
+		s := m.Enc(ent, l)
+		w := strings.Split(s, ref.Sep(l))
+		chk = append(chk, plan.Op{Fn: []string{"chk", "val", "chkval"}[k%3], L: int64(l), S: hxs(s)})
+		bad := append([]string(nil), w...)
+		bad[len(bad)-1] = m.List[l][m.Index[l][bad[len(bad)-1]]^1]
+		chk = append(chk, plan.Op{Fn: "chk", L: int64(l), S: hxs(strings.Join(bad, " "))})
+		if k%2 == 0 {
+			chk = append(chk, plan.Op{Fn: "chk", L: int64((l + 1) % ref.NLang), S: hxs(s)})
+			unk := append([]string(nil), w...)
+			unk[k%len(unk)] = "qzx" + itoa(k)
+			chk = append(chk, plan.Op{Fn: "chk", L: int64(l), S: hxs(strings.Join(unk, " "))})
+		}
+		if k < 4 {
+			seed = append(seed, plan.Op{Fn: "seed", S: hxs(s), P: hxs([]string{"", "TREZOR", "pa\u00df\uff57ord", " tail"}[k])})
+		}
+		str = append(str, plan.Op{Fn: "str", L: int64(l)}, plan.Op{Fn: "str", L: int64(1000 + k)}, plan.Op{Fn: "str", L: int64(-1 - k)})
+	}
+	var pool []plan.Op
+	switch kind {
+	case "enc":
+		pool = append(append(pool, enc...), chk[:4]...)
+	case "chk":
+		pool = append(append(pool, chk...), enc[:3]...)
+	case "seed":
+		pool = append(append(append(pool, seed...), enc[:2]...), chk[:2]...)
+	case "str":
+		pool = append(append(pool, str...), enc[:2]...)
+	}
+	return pool
 }
